@@ -15,7 +15,7 @@ TYPES = ["a", "ab"]
 # keys that are prefixes / suffixes of one another, near-separators, colons
 GOOD_KEYS = ["1", "10", "2", "21", "1-", ">1", "1:2", "-", "1>", "10-"]
 SEP_KEYS = ["1->a:1", "1->parent->a:2", "->", "1->", "->a:1", "2->ab:1"]
-RTYPES = ["parent", "parent", "parent", "parent", "parent", "x", "pa"]
+RTYPES = ["parent", "parent", "parent", "parent", "parent", "x", "pa", "parents"]
 ROOT = {"t": "builtin", "k": "root"}
 
 RULE = ("histories of 6-24 ops over a universe of 3-7 identifiers drawn from types {a, ab} and keys that are prefixes/"
@@ -320,9 +320,28 @@ def model_dump(case, r):
     return coq_print(PID, COQ_IMPORTS, COQ_EXTRA + "\nEval vm_compute in model_dump (%s)." % t)[-8000:]
 
 
-READY = False
-TECHNIQUE = ("Coq proof (invariant over operation lists, transitive-closure argument, fuel sufficiency under "
-             "acyclicity, byte-string separator lemmas) + model/impl correspondence by vm_compute")
+READY = True
+TECHNIQUE = ("Coq proof (invariant over operation lists, transitive-closure argument for edge insertion, fuel "
+             "sufficiency of the descendants recursion by a pigeonhole on walks, byte-string separator lemmas for the "
+             "prefix/suffix key scans) + model/impl correspondence by vm_compute")
 DESIGN_REF = "DESIGN.md §8 C16"
-LEVEL_TEXT = "TODO"
-LEVEL_NOTE = "TODO"
+LEVEL_TEXT = ("Machine-checked Coq theorems over an executable Gallina copy of the ontology store at the byte-string "
+              "level (GorpKey layout, prefix scan of retrieveOutgoingRelationships / ChildrenTraverser, suffix scan of "
+              "deleteIncomingRelationships, ParseRelationship behind the by-To index, Retrieve.Exec clause loop, "
+              "copy-on-write transactions): for every history over identifiers without the key separator the graph "
+              "is acyclic with no dangling edge (C16_invariant_partial); DefineRelationship / one-to-many succeed "
+              "iff both ends exist and no target reaches the source, add exactly the edge, are no-ops when present "
+              "(C16_define_iff_partial, C16_define_many_iff_partial); DeleteResource removes exactly the touching "
+              "edges (C16_delete_cleans_partial); parents/children clause traversals and descendants equal graph "
+              "search over surviving resources and the recursion needs at most |rels|+1 levels "
+              "(C16_traversals_partial, C16_descendants_partial). The model is tied to /repo on every run by driving "
+              "the real ontology over memkv through generated histories and comparing both table views and four "
+              "traversals of every identifier after every op inside Coq; a decidable digraph monitor states the "
+              "property on the implementation's observations and yields the replay.")
+LEVEL_NOTE = ("Trusted: Coq kernel/vm_compute; hand-written model (tied by correspondence, not translation); harness + "
+              "hook (VerifDescendants, VerifScan); generator. Theorems closed under the global context. F10 (prefix "
+              "without separator) and F11 (self edge accepted, then unbounded recursion) were reproduced by this check "
+              "and repaired by fix: commits (C16_f10_prefix_refuted / C16_f11_self_edge_refuted keep the witnesses). "
+              "Partial: identifiers containing '->' (reachable through free-form device keys) break every clause "
+              "(C16_sep_*_refuted) — known finding F20, not a small fix. Not modelled: interleaved transactions, "
+              "DeleteManyResources / DefineManyResources / Delete*RelationshipsOfType / WhereTypes, resource payloads.")
